@@ -146,7 +146,7 @@ func itoa(i int) string {
 // --- lexical pools
 
 var plainNames = []string{"a", "b", "c", "t", "x", "y", "col1", "Singers", "Albums", "_x", "tbl1", "FirstName", "id", "v", "k", "foo", "bar_baz", "n"}
-var quotedNames = []string{"a b", "1x", "select", "from", "é", "a`b", "a\\b", "a-b", "日本", "group", "x.y", "'q'", "a\"b", "\n", "NULL"}
+var quotedNames = []string{"a b", "1x", "select", "from", "é", "a`b", "a\\b", "a-b", "日本", "group", "x.y", "'q'", "a\"b", "\n", "NULL", "\ufffd", "a\ufffd", "\xff", "\u00a0", "😀", "\t", "?", "0", "_ _"}
 
 func (g *G) name() string {
 	if g.pickLeafy("name.kind", 8, 7) == 7 {
@@ -168,9 +168,35 @@ func (g *G) path(site string) {
 	}
 }
 
-var strValues = []string{"", "a", "abc", "it's", "say \"hi\"", "both ' and \"", "back`tick", "back\\slash", "line1\nline2", "tab\there", "\r", "é", "日本語", "\x00", "\x7f", "\xff\xfe", "a;b", "-- not a comment", "/* nor this */", "%", "2020-01-01", "{\"a\": 1}", "'''", "\"\"\"", "\a\b\f\v", "?", "😀", "\u0085", "x'"}
+var strValues = []string{"", "a", "abc", "it's", "say \"hi\"", "both ' and \"", "back`tick", "back\\slash", "line1\nline2", "tab\there", "\r", "é", "日本語", "\x00", "\x7f", "\xff\xfe", "a;b", "-- not a comment", "/* nor this */", "%", "2020-01-01", "{\"a\": 1}", "'''", "\"\"\"", "\a\b\f\v", "?", "😀", "\u0085", "x'",
+	"\ufffd", "a\ufffdb", "\u2028", "\ufeff", "\U0010ffff", "\ud7ff\ue000", "\x80", "\xc3", "\xed\xa0\x80", "\u00a0", "\u200b", "\\n", "\\", "\\'", "`", "``", "\"'`"}
 
-func (g *G) strval() string { return strValues[g.r.IntN(len(strValues))] }
+// strval returns a literal value: from the pool, or (1 in 5) a random mix of runes and bytes.
+func (g *G) strval() string {
+	if g.r.IntN(5) != 0 {
+		return strValues[g.r.IntN(len(strValues))]
+	}
+	var sb strings.Builder
+	for i, n := 0, 1+g.r.IntN(6); i < n; i++ {
+		switch g.r.IntN(6) {
+		case 0:
+			sb.WriteByte(byte(g.r.IntN(256)))
+		case 1:
+			sb.WriteRune(rune(0x80 + g.r.IntN(0x800)))
+		case 2:
+			x := rune(g.r.IntN(0x110000))
+			if x >= 0xD800 && x <= 0xDFFF {
+				x = 0xFFFD
+			}
+			sb.WriteRune(x)
+		case 3:
+			sb.WriteByte("'\"`\\\n\r\t?%_"[g.r.IntN(10)])
+		default:
+			sb.WriteByte(byte(0x20 + g.r.IntN(0x5f)))
+		}
+	}
+	return sb.String()
+}
 
 var intSpellings = []string{"0", "1", "2", "7", "10", "42", "123", "1000", "0x0", "0x1F", "0XaB", "0xabcdef", "9223372036854775807", "00", "007"}
 var floatSpellings = []string{"1.5", "0.5", ".5", "5.", "1e3", "1E3", "1e+3", "1e-3", "1.5e3", ".5e-3", "5.e3", "0.0", "123.456"}
